@@ -19,9 +19,10 @@ pub struct Client {
     padding: Arc<PaddingFactory>,
     session_pool: Arc<SessionPool>,
     pool_config: SessionPoolConfig,
-    // md5 of the process-wide default scheme when this client was created; if the default
-    // differs later, the server has pushed a new scheme in the meantime
-    initial_default_md5: String,
+    // how often the process-wide default scheme had been replaced when this client was
+    // created; if the count differs later, the server has pushed a scheme in the meantime
+    // (comparing md5s is not enough: the pushed scheme may equal the initial default)
+    initial_default_updates: u64,
 }
 
 impl Client {
@@ -65,7 +66,7 @@ impl Client {
             padding,
             session_pool,
             pool_config,
-            initial_default_md5: PaddingFactory::default().md5().to_string(),
+            initial_default_updates: PaddingFactory::default_updates(),
         }
     }
 
@@ -294,9 +295,8 @@ impl Client {
         // A scheme pushed by the server (it replaces the process-wide default) is used for
         // every session opened afterwards: otherwise each new session would announce the old
         // md5 again and the server would have to push the scheme once per session.
-        let current_default = PaddingFactory::default();
-        let padding = if current_default.md5() != self.initial_default_md5 {
-            current_default
+        let padding = if PaddingFactory::default_updates() != self.initial_default_updates {
+            PaddingFactory::default()
         } else {
             self.padding.clone()
         };
